@@ -10,6 +10,9 @@
     csv                  — string matrices (incl. the guarded shapes) and raw CSV text;
     bits                 — integers up to 2^53 and sets of bit positions;
     float stream         — documents with fractional / huge numbers: implementation-side law only (`law`).
+    non-finite numbers   — NaN/±Inf (1/0, -1/0, 0/0, YAML .inf, -.inf, .nan) at top level and nested, and huge /
+                           denormal / negative-zero documents: pinned behaviour as laws (`pin`, `wirenf`, `law`):
+                           JSON encode rejects, YAML preserves, CSV rejects numbers, the wire format rejects.
     multi-step programs  — ONE configured codec value (json/yaml/csv encoder(cfg)/decoder(cfg), //encoding.bytes)
                            bound by `let` and applied 2–4 times (lets, `>>` over an array, `=>` over a set, tuple,
                            nested, vs. the plain function) to documents of different lengths, every result
@@ -681,11 +684,75 @@ def genMultiCase (id : String) (depth : Nat) : Gen Case := do
     pure (evalCase id "bytes/multi" "good"
       ("let dec = //encoding.bytes.decode; [" ++ ", ".intercalate lits ++ "] >> dec(.) >> dec(.)") o o)
 
+/-! ### non-finite and extreme numbers (implementation-only: outside the integer model).
+Pinned behaviour of the unchanged tree, stated as laws through the `pin`/`wirenf`/`law` operations:
+  JSON   encode of a value containing NaN or ±Inf is an ERROR (never a silently different document);
+  YAML   `.inf`, `-.inf`, `.nan` survive decode and decode∘encode∘decode; encode∘decode preserves the value;
+  CSV    a number (finite or not) in a matrix is an error; the strings 'NaN', '.inf' are ordinary fields;
+  wire   MarshalToJSON rejects (panics on) a non-finite number — never delivers a changed value;
+  huge / denormal / negative-zero documents satisfy decode∘encode∘decode = decode. -/
+
+def nonFinite : List String := ["(1/0)", "(-1/0)", "(0/0)"]
+
+/-- `x` (arr.ai source) placed at top level or nested; strict tagged forms and untagged (non-strict) forms -/
+def nestStrict (x : String) : List String :=
+  [x, s!"(a: [1, {x}])", "{'k': " ++ x ++ "}", s!"(a: [(a: [{x}, (s: 'q')]), ()])",
+   "{'k': (a: [" ++ x ++ "]), 'j': 2}", s!"(a: [{x}, {x}])"]
+def nestLoose (x : String) : List String := [x, s!"[1, {x}]", "{'k': " ++ x ++ "}", "[{'k': [" ++ x ++ "]}]"]
+
+def yamlNonFiniteDocs : List String :=
+  [".inf", "-.inf", ".nan", "[.inf, 1]", "[1, -.inf, .nan]", "{k: .inf}", "{k: [.nan, {j: -.inf}]}", "- .Inf\\n- .NaN\\n",
+   "a: .NAN\\nb: -.INF\\n", "[+.inf]"]
+
+def extremeDocs : List String :=
+  ["5e-324", "-5e-324", "1e-320", "2.2250738585072014e-308", "2.2250738585072011e-308", "1.7976931348623157e308",
+   "-1.7976931348623157e308", "1e308", "-0.0", "-0", "0.0", "[-0.0, 5e-324]", "{\"k\": 1.7976931348623157e308}",
+   "4.9406564584124654e-324", "9007199254740993", "0.1", "1e-7", "123456789012345680000"]
+
+def pinCase (id stratum prog expected spec : String) : Case :=
+  { id := id, cls := "good", kind := "pin", stratum := stratum, model := spec, spec := spec, payload := [prog, expected] }
+
+def genNonFiniteCase (id : String) : Gen Case := do
+  let r ← rand 12
+  let x ← pick nonFinite
+  if r < 3 then
+    -- JSON: rejected, strict and non-strict, json and (yaml-decoded) values alike
+    let strict ← chance 2 3
+    let v ← pick (if strict then nestStrict x else nestLoose x)
+    pure (pinCase id "json/non-finite/encode" s!"{decSrc jsonC strict}({encSrc jsonC strict}({v}))" v "rejected")
+  else if r < 5 then
+    let strict ← chance 2 3
+    let v ← pick (if strict then nestStrict x else nestLoose x)
+    pure (pinCase id "yaml/non-finite/encode-decode" s!"{decSrc yamlC strict}({encSrc yamlC strict}({v}))" v "same")
+  else if r < 7 then
+    let d ← pick yamlNonFiniteDocs
+    let strict ← chance 2 3
+    pure (lawCase id "yaml/non-finite/redecode" "good"
+      s!"let v = {decSrc yamlC strict}('{d}'); (l: v, r: {decSrc yamlC strict}({encSrc yamlC strict}(v)))")
+  else if r < 8 then
+    let d ← pick yamlNonFiniteDocs
+    pure (pinCase id "json/non-finite/encode-yaml-value" s!"//encoding.json.encode(//encoding.yaml.decode('{d}'))" "0"
+      "rejected")
+  else if r < 9 then
+    let m ← pick [s!"[[{x}]]", s!"[['a', {x}], ['b', 'c']]", "[[1.5]]"]
+    pure (pinCase id "csv/non-finite" s!"//encoding.csv.decode(//encoding.csv.encode({m}))" m "rejected")
+  else if r < 10 then
+    let v ← pick (nestLoose x ++ nestStrict x ++ [s!"(x: {x}, y: 'z')"])
+    pure { id := id, cls := "good", kind := "wirenf", stratum := "wire/non-finite", model := "rejected",
+           spec := "rejected", payload := [v] }
+  else
+    let d ← pick extremeDocs
+    let c ← pick [jsonC, yamlC]
+    let strict ← chance 2 3
+    pure (lawCase id (c.name ++ "/extreme-numbers") "good"
+      s!"let v = {decSrc c strict}('{d}'); (l: v, r: {decSrc c strict}({encSrc c strict}(v)))")
+
 def genCase (idx : Nat) (big : Bool) : Gen Case := do
   let id := s!"C13-{idx}"
   let depth := if big then 3 else 2
-  let r ← rand 114
-  if r ≥ 100 then genMultiCase id (depth - 1)
+  let r ← rand 119
+  if r ≥ 114 then genNonFiniteCase id
+  else if r ≥ 100 then genMultiCase id (depth - 1)
   else if r < 30 then
     let j ← genJ depth
     docCase id jsonC j (← rand 6) (← chance 1 3) (← chance 1 3) |> pure
@@ -776,6 +843,18 @@ def corpus : List Case :=
                 (toArrai true (.arr [.null])).den]).canon
       (V.mkArr [(toArrai true (.obj [([97], .arr [.num 1, .num 2, .num 3]), ([98], .str [116, 101, 120, 116])])).den,
                 (toArrai true (.arr [.null])).den]).canon,
+    -- non-finite numbers: JSON rejects, YAML preserves, the wire format rejects (by panicking: known finding)
+    pinCase "C13-corpus-41" "corpus" "//encoding.json.encode(1/0)" "0" "rejected",
+    pinCase "C13-corpus-42" "corpus" "//encoding.json.encode((a: [1, -1/0]))" "0" "rejected",
+    pinCase "C13-corpus-43" "corpus" "//encoding.json.encoder((strict: false))([0/0])" "0" "rejected",
+    lawCase "C13-corpus-44" "corpus" "good"
+      "let v = //encoding.yaml.decode('[.inf, -.inf, .nan]'); (l: //encoding.yaml.decode(//encoding.yaml.encode(v)), r: (a: [1/0, -1/0, 0/0]))",
+    pinCase "C13-corpus-45" "corpus" "//encoding.yaml.decode(//encoding.yaml.encode(//encoding.yaml.decode('.inf')))" "1/0" "same",
+    pinCase "C13-corpus-46" "corpus" "//encoding.csv.decode(//encoding.csv.encode([['NaN', '.inf', '-Inf']]))"
+      "[['NaN', '.inf', '-Inf']]" "same",
+    { id := "C13-corpus-47", cls := "KF-wire-nonfinite-panic", kind := "wire", stratum := "wire/non-finite",
+      model := "panic", spec := "error", payload := ["(a: [1, 1/0])"] },
+    evalCase "C13-corpus-48" "corpus" "good" "//encoding.json.decode('1e999')" "error" "error",
     -- configuration forms of the codecs
     evalCase "C13-corpus-34" "corpus" "good"
       "//encoding.json.decode(//encoding.json.encode_indent((a: [1, (s: 'x<>&'), {'k': ()}])))"
